@@ -98,9 +98,14 @@ def gen_dense(rng):
     base_unit = rng.choice(['s', 'ms'])          # a quarter tick is 0.25 base units
     members = []
     texts = []
+    # only exact changes of unit: the time axis is scaled UP by a power of ten (default unit not coarser than the base
+    # unit) and suffix units are not finer than the default unit, so that no window edge moves by a rounding error
+    order = ['s', 'ms', 'us', 'ns']
     for j in range(rng.randint(3, 4)):
-        du = rng.choice([None, 's', 'ms', 'us']) if j else (None if base_unit == 's' else 'ms')
-        sfx = rng.choice(['', 's', 'ms', 'us', 'ns']) if j else ''
+        du = rng.choice(order[order.index(base_unit):order.index(base_unit) + 3]) if j else base_unit
+        sfx = rng.choice([''] + order[:order.index(du) + 1]) if j else ''
+        if du == 's' and rng.random() < 0.5:
+            du = None
         members.append({'du': du, 'sfx': sfx})
         texts.append(_dense_text(ast, base_unit, du, sfx, sg.Spelling(rng)))
     return {'kind': 'dense', 'mode': mode, 'vars': vars_, 'ast': ast, 'signals': signals, 'base_unit': base_unit, 'members': members,
